@@ -1,6 +1,6 @@
 #!/bin/bash
 # run_all.sh quick|thorough [ids...]: run the registered checks one after the other, print one line each
-cd /verif
+cd "$(dirname "$0")/.."
 tier=${1:-quick}; shift
 ids="$@"
 [ -z "$ids" ] && ids=$(python3 -c "import json;print(' '.join(c['property_id'] for c in json.load(open('MANIFEST.json'))['checks']))")
